@@ -16,6 +16,8 @@ def step_text(ins, ph, n):
         return ins
     if ph == 'LIT':
         return f'{ins} {n}'
+    if ph == 'ARG2X':
+        return f'{ins} 2*@ARG({n})'
     return f'{ins} @{ph}({n})'
 
 
@@ -50,13 +52,15 @@ def macro_isa(m):
 def filled_lines(e):
     inv = e['m']['inv']
     out = []
-    for ins, k, op, lit in e['fill']:
+    sel_steps = e['m']['steps'] if len(e['fill']) == len(e['m']['steps']) and all(f[0] == s[0] for f, s in zip(e['fill'], e['m']['steps'])) else None
+    for idx, (ins, k, op, lit) in enumerate(e['fill']):
+        twox = bool(sel_steps) and sel_steps[idx][1] == 'ARG2X'
         if k == 'none':
             out.append(ins)
         elif op == -1:
             out.append(f'{ins} {lit}')
         elif k == 'num':
-            out.append(f'{ins} {ARGTXT[inv][op]}')
+            out.append(f'{ins} {"2*" if twox else ""}{ARGTXT[inv][op]}')
         elif k == 'reg':
             out.append(f'{ins} r1')
         else:
